@@ -1,0 +1,60 @@
+//go:build verif
+
+package fp
+
+// Contracts for the JSON methods of Option and Unit (option.go, fp.go) — property C15 — checked by
+// /verif/govc, relative to the assumed contract of encoding/json (see JSONFaithful in verifspec):
+// the round trip holds for every value whose own encoding is faithful and not null; decoding
+// arbitrary bytes never panics and leaves the target unchanged on error.
+// The clause about @fp.Json structs concerns gombok's output and is not covered here.
+
+//@ ghost
+//@ func optionRoundTrip[T any](x Option[T]) bool {
+//@ 	b, err := x.MarshalJSON()
+//@ 	if err != nil {
+//@ 		return false
+//@ 	}
+//@ 	var y Option[T]
+//@ 	if y.UnmarshalJSON(b) != nil {
+//@ 		return false
+//@ 	}
+//@ 	return Eq(y, x)
+//@ }
+//@ func unitRoundTrip() bool {
+//@ 	b, err := Unit{}.MarshalJSON()
+//@ 	var u Unit
+//@ 	return err == nil && u.UnmarshalJSON(b) == nil && len(b) == 4 && b[0] == 'n' && b[1] == 'u' && b[2] == 'l' && b[3] == 'l'
+//@ }
+//@ func noneIsNull[T any]() bool {
+//@ 	b, err := None[T]().MarshalJSON()
+//@ 	return err == nil && len(b) == 4 && b[0] == 'n' && b[1] == 'u' && b[2] == 'l' && b[3] == 'l'
+//@ }
+//@ end
+//
+//@ lemma jsonRoundTrip[T any](v T)
+//@   prop C15
+//@   requires JSONFaithful(v)
+//@   ensures optionRoundTrip(Some(v))
+//@   tag some
+//@   ensures optionRoundTrip(None[T]())
+//@   tag none
+//@   ensures noneIsNull[T]() && unitRoundTrip()
+//@   tag nullLiteral
+//
+//@ func (*Option).UnmarshalJSON(r, b) err
+//@   prop C15
+//@   option frame=off
+//@   ensures r == nil ==> err != nil
+//@   tag nilTargetIsAnError
+//@   ensures r != nil && err != nil ==> Eq(*r, Old(*r))
+//@   tag targetUnchangedOnError
+//@   ensures r != nil && len(b) > 0 && b[0] == 'n' ==> err == nil && Eq(*r, None[T]())
+//@   tag nullDecodesToNone
+//@   ensures r != nil && len(b) == 0 ==> err == nil && Eq(*r, None[T]())
+//@   tag emptyInput
+//
+//@ func (Option).MarshalJSON(r) (b, err)
+//@   prop C15
+//@   ensures r.IsDefined() && JSONFaithful(r.Get()) ==> err == nil && len(b) > 0 && b[0] != 'n'
+//@   tag someIsNotNull
+//@   ensures Unchanged()
